@@ -1510,6 +1510,9 @@ impl Exit for VirtualSystem {
         self.verif_tap("exit");
         let mut myself = self.current_process_mut();
         let parent_pid = myself.ppid;
+        // Only the least significant 8 bits of the exit status are available
+        // to the parent process.
+        let exit_status = ExitStatus(exit_status.0 & 0xFF);
         let exited = myself.set_state(ProcessState::exited(exit_status));
         drop(myself);
         if exited {
